@@ -61,12 +61,13 @@ def shrink(mod, case, still_fails):
     if cands is None:
         return case
     budget = 200
+    deadline = time.time() + 90          # shrinking is best effort: bounded in wall time too
     improved = True
-    while improved and budget > 0:
+    while improved and budget > 0 and time.time() < deadline:
         improved = False
         for c2 in cands(case):
             budget -= 1
-            if budget <= 0:
+            if budget <= 0 or time.time() > deadline:
                 break
             try:
                 if still_fails(c2):
@@ -131,7 +132,8 @@ def main(argv=None):
     if modelled:
         view = getattr(mod, 'model_view', lambda c, o: o)
         pairs = [(mod.model_term(results[i][0]), lib.cobs(view(results[i][0], results[i][1]))) for i in modelled]
-        bad, errs = lib.model_mismatches(prop, mod.IMPORTS, pairs, prelude=getattr(mod, "PRELUDE", ""))
+        bad, errs = lib.model_mismatches(f"{prop}_{os.getpid()}", mod.IMPORTS, pairs, prelude=getattr(mod, "PRELUDE", ""),
+                                         shard=getattr(mod, "SHARD", 300), jobs=getattr(mod, "JOBS", 8))
         mism = [modelled[k] for k in bad]
         if errs:
             model_ok = False
@@ -153,7 +155,8 @@ def main(argv=None):
     for i, (c, enc, v, o) in enumerate(results):
         if v is None:
             continue
-        fid = mod.known(c, o, v) if hasattr(mod, "known") else None
+        harness_exc = isinstance(o, list) and bool(o) and o[0] == "HARNESS-EXC"
+        fid = mod.known(c, o, v) if (hasattr(mod, "known") and not harness_exc) else None
         if fid is not None and fid in known_active and i not in mism:
             attributed[fid] = attributed.get(fid, 0) + 1
         else:
@@ -191,8 +194,8 @@ def main(argv=None):
         found = None
         extra_cases = mod.search(ctx, results, mism) if hasattr(mod, "search") else []
         if not extra_cases:
-            ctx2 = Ctx(prop, "thorough", seed + 7919)
-            extra_cases = mod.generate(ctx2)
+            for k in range(1, 4):       # default search: three more quick-sized rounds with other seeds
+                extra_cases += mod.generate(Ctx(prop, "quick", seed + 7919 * k))
         for c in extra_cases:
             o = safe_impl(mod, c)
             v = None if (isinstance(o, list) and o and o[0] == "HARNESS-EXC") else mod.oracle(c, o)
@@ -263,6 +266,8 @@ def main(argv=None):
         coverage["discharged_count"] = coverage.pop("discharged")
     lib.write_evidence(prop, a.tier, seed, coverage, list(getattr(mod, "ASSUMPTIONS", [])),
                        time.time() - t0, len(violations))
+    import shutil
+    shutil.rmtree(lib.BUILD / "cases" / f"{prop}_{os.getpid()}", ignore_errors=True)
     for line in known_lines:
         print(line)
     for line in violations:
@@ -273,5 +278,19 @@ def main(argv=None):
     return 1 if violations else 0
 
 
+def _main_in_scratch():
+    """run in a private scratch cwd: the library writes recovery/checkpoint files relative to cwd"""
+    import shutil
+    import tempfile
+    d = tempfile.mkdtemp(prefix="verif_cwd_")
+    old = os.getcwd()
+    os.chdir(d)
+    try:
+        return main()
+    finally:
+        os.chdir(old)
+        shutil.rmtree(d, ignore_errors=True)
+
+
 if __name__ == "__main__":
-    sys.exit(main())
+    sys.exit(_main_in_scratch())
